@@ -417,6 +417,10 @@ func genVal(t *rapid.T) Val {
 		if rapid.Bool().Draw(t, "shortmant") {
 			// few significant digits, any decimal exponent: printed in exponent form by the writer
 			m := float64(rapid.IntRange(1, 999).Draw(t, "mant"))
+			if rapid.Bool().Draw(t, "longmant") {
+				// up to 15 digits: with exponents 23..37 the product leaves the exactly representable range
+				m = float64(rapid.Int64Range(1, 999999999999999).Draw(t, "mant15"))
+			}
 			e := rapid.IntRange(-40, 45).Draw(t, "exp10")
 			f, _ := strconv.ParseFloat(strconv.FormatFloat(m, 'f', -1, 64)+"e"+strconv.Itoa(e), 64)
 			if rapid.Bool().Draw(t, "negv") {
